@@ -7,7 +7,7 @@ record("ISLaSolver", module="isla.solver", file="isla/solver.py",
        fields={"timeout_seconds": "Opt[Int]", "start_time": "Opt[Int]", "queue": "List[Any]",
                "solutions": "List[Any]", "step_cnt": "Int",
                "formula": "Any", "grammar": "Any", "top_constant": "Any"},
-       value_eq=False, mutable=["start_time", "step_cnt"])
+       value_eq=False, mutable=["start_time", "step_cnt", "queue", "solutions", "timeout_seconds"])
 
 # P1 exhaustion: with an empty queue and no pending solution every call raises StopIteration and
 # changes nothing but start_time -- hence the state stays exhausted and the next call does the same.
@@ -32,3 +32,37 @@ contract(S + "@timeout", props=["C02"], types={"self": "Rec:ISLaSolver"}, return
                      "calls": {"time.time()": "now"}},
          crosscheck=False,
          note="assumes int(time.time()) is an integer clock `now` that never decreases between calls")
+
+
+# ---- the nested solve() of the solver's unsat support leaves no trace (C01, C02) ------------------------------------
+# process_new_state checks an existential conjunct on its own by running self.solve() on a one-element queue.  The
+# block around that call saves queue / solutions / start_time / timeout_seconds and restores them in `finally`.
+# Proved from the real text of that block (a loop body): on every normal exit (falling through, or `break` after the
+# inner StopIteration) the four attributes have the values they had before -- whatever the nested solve() did to
+# them (its effect is havoc: ASSUMED to write only those attributes and step_cnt, and to end by returning or by
+# StopIteration / TimeoutError).  So trees found by the nested run can never leak into the solutions handed out.
+contract(S + "@nested", props=["C01", "C02"], types={"self": "Rec:ISLaSolver"}, returns="Any",
+         raises={"StopIteration": "uf_bool('nested_exhausted', self)",
+                 "TimeoutError": "uf_bool('nested_timeout', self) and not uf_bool('nested_exhausted', self)"},
+         ensures="True", assumed=True,
+         path_hints={"callable_variant": True,
+                     "modifies": {"self": ["queue", "solutions", "start_time", "step_cnt"]}},
+         why_assumed="the nested ISLaSolver.solve(): arbitrary effect on queue / solutions / start_time / step_cnt; it "
+                     "returns a tree or raises StopIteration / TimeoutError (C02)")
+contract("isla/solver.py::ISLaSolver.process_new_state@unsat_check_frame", props=["C01", "C02"],
+         types={"self": "Rec:ISLaSolver"},
+         closure={"q0": "List[Any]", "s0": "List[Any]", "t0": "Opt[Int]", "to0": "Opt[Int]", "now": "Int",
+                  "existential_formula": "Any", "new_state": "Any"},
+         returns="Any",
+         requires="q0 == self.queue and s0 == self.solutions and t0 == self.start_time and to0 == self.timeout_seconds",
+         fragment=dict(rule="inner_block", starts_with="old_start_time = self.start_time"),
+         raises={"TimeoutError": "True"},
+         ensures={"queue_restored": "self.queue == q0", "solutions_restored": "self.solutions == s0",
+                  "start_time_restored": "self.start_time == t0", "timeout_restored": "self.timeout_seconds == to0"},
+         path_hints={"modifies": {"self": ["queue", "solutions", "start_time", "timeout_seconds", "step_cnt"]},
+                     "calls": {"time.time()": "now", "SolutionState(existential_formula, new_state.tree)": "None",
+                               "heapq.heappush(self.queue, (0, check_state))": "None",
+                               "new_states.remove(new_state)": "None"}},
+         crosscheck=False,
+         note="a TimeoutError of the nested run propagates (after the restoring `finally`); exceptional exits have no "
+              "post-condition in this engine")
